@@ -460,6 +460,8 @@ def gen_node_ops(rng, n):
     nfill = rng.choice([0, 0, 4, 8, 10])
     if nfill:
         ops.append(("fill", nfill))
+    if rng.random() < 0.5:
+        ops.append(("sfind", rng.randrange(6)))   # the node under test is a client too: it holds received tokens
     for _ in range(n):
         r = rng.random()
         ident = (rng.randrange(3), rng.randrange(3))
@@ -492,6 +494,8 @@ def gen_node_ops(rng, n):
                             tuple(("str", 100 + base + 8 * part + j, 0) for j in range(rng.choice([5, 8, 8])))))
             ops.append(("find", ident, tgt, 0, False))
             ops.append(("find", ident, tgt, rng.choice([1, 3, 9]), False))
+        elif r < 0.880:
+            ops.append(("sfind", rng.randrange(6)))
         elif r < 0.885:
             ops.append(("ping", ident))
         elif r < 0.90:
@@ -729,6 +733,39 @@ class NodeRun:
                         await do_find(i, op[1], 0, 0, True)
             elif op[0] == "ping":
                 await do_ping(op[1])
+            elif op[0] == "sfind":
+                # the node under test looks a key up itself (at the second real node): it now holds a RECEIVED token,
+                # which its own token_maintenance - run by the task manager during later advances - has to expire
+                s2n = Node(S2.my_peer.public_key, S2.endpoint.wan_address)
+                rt = ov.get_routing_table(s2n)
+                if not rt.has(s2n.id):
+                    rt.add(s2n)
+                t0 = loop.time()
+                try:
+                    await ov.find_values(targets[op[1]])
+                    ctx.count("B.sfind:returned")
+                except Exception as e:
+                    ctx.count("B.sfind:raised:" + type(e).__name__)
+                await drain(6)
+                # the pool addresses never answer the node's own find requests; without this their routing-table entries
+                # would count as failed, be evicted by later additions and silently lose their rate-limit history
+                # (the standing assumption of part B is that requesters stay routing-table entries)
+                for bucket in rt.trie.values():
+                    for rn in bucket.nodes.values():
+                        rn.failed = 0
+                dt = loop.time() - t0
+                assert dt == int(dt)
+                # the second node answers when the crawl gets to it (silent nodes ahead of it time out first)
+                t_ans = ov.tokens[s2n.id][0] if s2n.id in ov.tokens and t0 <= ov.tokens[s2n.id][0] <= t0 + dt else None
+                if t_ans is not None:
+                    if t_ans > t0:
+                        self.emit(f"adv {int(t_ans - t0)}", "ok")
+                    self.emit(f"recvtok {nidx(s2n.id)}", "ok")
+                    if t0 + dt > t_ans:
+                        self.emit(f"adv {int(t0 + dt - t_ans)}", "ok")
+                elif dt:
+                    self.emit(f"adv {int(dt)}", "ok")
+                self.emit("ntok", str(len(ov.tokens)))
             elif op[0] == "fill":
                 rt = ov.get_routing_table(Node(W.keys[0].pub(), addrs[0]))
                 for _ in range(op[1]):
@@ -894,6 +931,14 @@ class NodeRun:
                                   f"{'a valid' if ok_tok else 'an invalid'} token", i)
                 npeers.append(len(after))
                 continue
+            if op[0] in ("adv", "rotate"):
+                self.emit("ntok", str(len(ov.tokens)))
+                if ov.tokens:
+                    ctx.count("B.adv-with-received-tokens")
+                if not ov.is_pending_task_active("token_maintenance"):
+                    self.fail("DHTCommunity.token_maintenance:task-died",
+                              f"the periodic token_maintenance task is no longer scheduled at t+{int(loop.time() - t_start)}: "
+                              f"token secrets will never rotate again", i)
             if op[0] in ("adv", "clean"):
                 for tg in targets:
                     self.emit(f"dump {W.h20(tg)}", W.uids(dump(tg)))
